@@ -8,7 +8,7 @@ open GoRes GoRes.Index
 index (once per mutation: `updateIndex` is called once per change, in task order) -/
 theorem callback_iff_key_change {V : Type} (idxs : List (Idx V)) (id : Bytes) (before after : Option V) (db : DB) :
     (updateIndex idxs id before after db).2 = idxs.any (fun ix => before.bind ix.key != after.bind ix.key) := by
-  sorry
+  exact updateIndex_snd idxs id before after db
 
 /-- **sound**: if the mutation changes what the query returns, the change reports the query as
 affected — for every prefix, filter, window and direction -/
@@ -18,7 +18,17 @@ theorem affected_sound {V : Type} (ix : Idx V) (vals : List (Bytes × V)) (id : 
     (hne : spec (entriesOf ix vals) pre filter offset limit reverse ≠
            spec (entriesOf ix (vput vals id after)) pre filter offset limit reverse) :
     affectsQuery ix pre (some filter) (vget vals id) after = true := by
-  sorry
+  cases h : affectsQuery ix pre (some filter) (vget vals id) after with
+  | true => rfl
+  | false =>
+    exfalso
+    apply hne
+    -- the hits of the query are the same before and after, and sorting commutes with filtering
+    have key := hits_eq_of_not_affects ix vals id after pre filter hd h
+    have e : ∀ l : List (Bytes × Bytes),
+        (sortPairs l).filter (fun e => pre.isPrefixOf e.1 && filter e.1) = sortPairs (l.filter (hit pre filter)) :=
+      fun l => filter_sortPairs (hit pre filter) l
+    simp only [spec, e, key]
 
 /-- **unaffected when nothing matches**: if neither the old nor the new key matches the query
 (prefix and filter), the query is reported unaffected; a value that is not indexed matches nothing -/
@@ -26,12 +36,14 @@ theorem unaffected_when_no_match {V : Type} (ix : Idx V) (pre : Bytes) (filter :
     (hb : ∀ k, before.bind ix.key = some k → ¬ (pre.isPrefixOf k = true ∧ (∀ f, filter = some f → f k = true)))
     (ha : ∀ k, after.bind ix.key = some k → ¬ (pre.isPrefixOf k = true ∧ (∀ f, filter = some f → f k = true))) :
     affectsQuery ix pre filter before after = false := by
-  sorry
+  unfold affectsQuery
+  cases filter <;> cases hbk : before.bind ix.key <;> cases hak : after.bind ix.key <;>
+    simp_all [← Bool.not_eq_true]
 
 /-- a mutation that keeps the key is never reported -/
 theorem same_key_unaffected {V : Type} (ix : Idx V) (pre : Bytes) (filter : Option (Bytes → Bool)) (before after : Option V)
     (h : before.bind ix.key = after.bind ix.key) : affectsQuery ix pre filter before after = false := by
-  sorry
+  simp [affectsQuery, h]
 
 /-! ## non-vacuity -/
 example : affectsQuery (⟨[107], fun (v : Bytes) => some v⟩ : Idx Bytes) [97] none (some [97, 98]) (some [98]) = true := by decide
